@@ -1109,8 +1109,64 @@ def validate_spill(rng, n, res):
     res.extra["translation_validation_spill"] = stats
 
 
+def validate_push_data(rng, n, res):
+    """`ConnectHelper._push_data` of a real helper object with recording outputs against the translated definition:
+    static / non-static outputs, start time and metadata time equal, different or absent"""
+    from finam.tools.connect_helper import ConnectHelper
+
+    if not common.TRANSLATION_STATUS.get("ConnectHelper__push_data", {}).get("translated"):
+        return
+
+    class _Out:
+        def __init__(self, static, trace):
+            self.is_static, self.trace = static, trace
+
+        def push_data(self, _data, t):
+            self.trace.append(t)
+
+    reqs, reals = [], []
+    stats = {"ConnectHelper__push_data": 0, "static": 0, "two_publications": 0, "mismatch": 0}
+    for _ in range(n):
+        names = rng.sample(range(4), rng.randint(1, 3))
+        nm = rng.choice(names)
+        static = rng.random() < 0.3
+        t0 = rng.choice([None, 0, 1, 2])
+        ti = rng.choice([None, 0, 1, 2]) if rng.random() < 0.7 else t0
+        trace = [rng.choice([None, 0, 5]) for _ in range(rng.choice([0, 0, 1]))]
+        pushed = {k: rng.random() < 0.3 for k in names}
+        tm = lambda x: None if x is None else EPOCH + x * dt.timedelta(days=1)  # noqa
+        us_ = lambda x: None if x is None else x * 86_400_000_000  # noqa
+        h = ConnectHelper.__new__(ConnectHelper)
+        h.base_logger_name = "finam_verif"
+        live = [tm(x) for x in trace]
+        h._outputs = {str(k): _Out(static, live if k == nm else []) for k in names}
+        h._pushed_data = {str(k): v for k, v in pushed.items()}
+        h._out_data_cache = {str(nm): 1.0}
+        try:
+            h._push_data(str(nm), 1.0, tm(t0), tm(ti))
+            real = {"ok": [[[int(k), bool(v)] for k, v in h.data_pushed.items()], [None if t is None else us_of(t) for t in live]]}
+        except Exception as e:  # noqa
+            real = {"err": err_class(e)}
+        reqs.append({"fn": "ConnectHelper__push_data", "args": [[[k, v] for k, v in pushed.items()], [us_(x) for x in trace], nm, us_(t0), us_(ti), static]})
+        reals.append(real)
+        stats["static"] += static
+        stats["two_publications"] += (not static) and t0 != ti
+    for rq, real, lv in zip(reqs, reals, _trdriver(reqs)):
+        stats["ConnectHelper__push_data"] += 1
+        if "err" in real or "err" in lv:
+            agree = real.get("err") == lv.get("err")
+        else:
+            agree = [[list(p) for p in lv["ok"][0]], lv["ok"][1]] == real["ok"]
+        if not agree:
+            stats["mismatch"] += 1
+            res.diverge("translation/" + rq["fn"], {"fn": rq["fn"], "args": rq["args"]}, real, lv)
+    res.extra["translation_validation_push_data"] = stats
+
+
 def validate(prop, rng, n_per_fn, res):
     """runs the validation for the translated functions owned by `prop`; divergences go to `res`"""
+    if prop == "C06" and os.path.exists(TRDRIVER):
+        validate_push_data(rng, max(200, n_per_fn), res)
     if prop == "C10" and os.path.exists(TRDRIVER):
         validate_spill(rng, max(150, n_per_fn), res)
     if prop in ("C07", "C16") and os.path.exists(TRDRIVER):
